@@ -1,9 +1,18 @@
 import Ggql.Driver.Loop
 import Ggql.Gen.Skip
 import Ggql.Gen.Locks
+import Ggql.Gen.Coerce
 open Ggql Ggql.Driver
 
 def genTables : Tables :=
-  { skip := Gen.skipTable, locks := Gen.lockTable }
+  { skip := Gen.skipTable, locks := Gen.lockTable,
+    outInt := Gen.coerceOutInt, inInt := Gen.coerceInInt,
+    outInt64 := Gen.coerceOutInt64, inInt64 := Gen.coerceInInt64,
+    outFloat := Gen.coerceOutFloat, inFloat := Gen.coerceInFloat,
+    outFloat64 := Gen.coerceOutFloat64, inFloat64 := Gen.coerceInFloat64,
+    outString := Gen.coerceOutString, inString := Gen.coerceInString,
+    outId := Gen.coerceOutId, inId := Gen.coerceInId,
+    outBoolean := Gen.coerceOutBoolean, inBoolean := Gen.coerceInBoolean,
+    outTime := Gen.coerceOutTime, inTime := Gen.coerceInTime }
 
 def main (args : List String) : IO Unit := run genTables args
